@@ -265,8 +265,8 @@ def main(mod_name, argv=None):
     if violations:
         reported = set()
         for idx, v in violations:
-            fp = (v.get('cls'), v.get('fingerprint'))
-            if fp in reported and len(reported) >= 1 and len(violations) > 8:
+            fp = (v.get('cls'), v.get('fingerprint'), (v.get('detail') or '')[:50])
+            if fp in reported and len(violations) > 8:
                 continue
             reported.add(fp)
             path = write_replay(mod.ID, seed, idx, v)
